@@ -260,69 +260,101 @@ func c02(c *Ctx) {
 			}
 		}
 		r.Check("lexEventAttribute:unknown-keys-skipped", okOther, fn.Pos(), "bytes "+byteSetString(otherBytes)+" skip to the next '|' and continue without error")
-		// word tables
-		words := globalByteStrings(w, lexPkg)
-		wantWords := map[string]string{"priorityLow": "low", "priorityNormal": "normal", "alertInfo": "info", "alertError": "error", "alertWarning": "warning", "alertSuccess": "success"}
-		for g, s := range wantWords {
-			r.Check("word:"+g, words[g] == s, fn.Pos(), fmt.Sprintf("%s = %q (documented %q)", g, words[g], s))
+		// word comparisons: bytes.Equal(data, <constant bytes>) or string(data) == "<word>" (incl. switch cases)
+		wordOf := func(v ssa.Value) (string, bool) {
+			switch x := v.(type) {
+			case *ssa.Call:
+				if isCall(x, "bytes.Equal") && len(x.Call.Args) == 2 {
+					if s, ok := byteSliceConst(w, x.Call.Args[1], 0); ok {
+						return s, true
+					}
+					if s, ok := byteSliceConst(w, x.Call.Args[0], 0); ok {
+						return s, true
+					}
+				}
+			case *ssa.BinOp:
+				if x.Op == token.EQL {
+					if s, ok := constString(x.Y); ok {
+						if _, isConv := x.X.(*ssa.Convert); isConv {
+							return s, true
+						}
+					}
+					if s, ok := constString(x.X); ok {
+						if _, isConv := x.Y.(*ssa.Convert); isConv {
+							return s, true
+						}
+					}
+				}
+			}
+			return "", false
 		}
-		// in the p / t closures: store of constant K is controlled by bytes.Equal(data, <global>) == true
-		wantConst := map[string]string{"PriLow": "priorityLow", "AlertError": "alertError", "AlertWarning": "alertWarning", "AlertSuccess": "alertSuccess"}
+		// in the p / t closures: the store of constant K is controlled by a successful comparison with K's word
+		wantWord := map[string]string{"PriLow": "low", "AlertError": "error", "AlertWarning": "warning", "AlertSuccess": "success"}
+		wantSet := map[string]string{"Priority": "low normal", "AlertType": "error info success warning"}
 		found := map[string]bool{}
 		for _, g := range WithAnon(fn) {
+			fieldOfG := ""
 			for _, st := range storesIn(g) {
 				t, fld, _, ok := fieldRef(st.Addr)
 				if !ok || t != "Event" || (fld != "Priority" && fld != "AlertType") {
 					continue
 				}
+				fieldOfG = fld
 				k, isC := st.Val.(*ssa.Const)
 				if !isC {
 					r.Fail("enum-store:"+fld, st.Pos(), "non-constant stored into Event."+fld)
 					continue
 				}
 				name := constName(k)
-				guard := ""
+				guard, have := "", false
 				for _, cd := range condsFor(st.Block()) {
 					cd = normCond(cd)
-					if cl, ok := cd.V.(*ssa.Call); ok && isCall(cl, "bytes.Equal") && cd.Sense {
-						guard = valDesc(cl.Call.Args[1])
+					if wd, ok := wordOf(cd.V); ok && cd.Sense {
+						guard, have = wd, true
 					}
 				}
 				found[name] = true
-				r.Check("enum-store:"+name, guard == "global:"+wantConst[name], st.Pos(), fmt.Sprintf("%s stored under bytes.Equal(data, %s)", name, guard))
+				r.Check("enum-store:"+name, have && guard == wantWord[name], st.Pos(), fmt.Sprintf("%s stored when the word is %q (documented %q)", name, guard, wantWord[name]))
 			}
-		}
-		for k := range wantConst {
-			if !found[k] {
-				r.Fail("enum-store:"+k, fn.Pos(), "no store of "+k)
-			}
-		}
-		// unknown words are errors: in each of the two closures there is an l.err store in the branch where every Equal is false;
-		// and the default words (normal / info) are accepted without storing
-		for _, g := range WithAnon(fn) {
-			neq := 0
-			for _, cl := range callsIn(g) {
-				if isCall(cl, "bytes.Equal") {
-					neq++
-				}
-			}
-			if neq == 0 {
+			if fieldOfG == "" {
 				continue
 			}
-			okErr := false
-			for _, st := range fieldStores(g, "Lexer", "err") {
-				nFalse := 0
-				for _, cd := range condsFor(st.Block()) {
-					cd = normCond(cd)
-					if cl, ok := cd.V.(*ssa.Call); ok && isCall(cl, "bytes.Equal") && !cd.Sense {
-						nFalse++
+			// the words this closure knows, and: an unknown word reaches the error store
+			set := map[string]bool{}
+			var cmps []ssa.Value
+			eachInstr(g, func(in ssa.Instruction) {
+				if v, ok := in.(ssa.Value); ok {
+					if wd, ok := wordOf(v); ok {
+						set[wd] = true
+						cmps = append(cmps, v)
 					}
 				}
-				if nFalse == neq {
+			})
+			var ws []string
+			for wd := range set {
+				ws = append(ws, wd)
+			}
+			sort.Strings(ws)
+			r.Check("word:"+fieldOfG, strings.Join(ws, " ") == wantSet[fieldOfG], g.Pos(), fmt.Sprintf("words accepted for Event.%s: %v (documented: %s)", fieldOfG, ws, wantSet[fieldOfG]))
+			okErr := false
+			for _, st := range fieldStores(g, "Lexer", "err") {
+				falseSeen := map[ssa.Value]bool{}
+				for _, cd := range condsFor(st.Block()) {
+					cd = normCond(cd)
+					if _, ok := wordOf(cd.V); ok && !cd.Sense {
+						falseSeen[cd.V] = true
+					}
+				}
+				if len(falseSeen) == len(cmps) && len(cmps) > 0 {
 					okErr = true
 				}
 			}
-			r.Check("enum-unknown-word-is-error:"+g.Name(), okErr, g.Pos(), fmt.Sprintf("%d word comparisons; an unknown word must reach the error store", neq))
+			r.Check("enum-unknown-word-is-error:"+fieldOfG, okErr, g.Pos(), fmt.Sprintf("%d word comparisons; an unknown word must reach the error store", len(cmps)))
+		}
+		for k := range wantWord {
+			if !found[k] {
+				r.Fail("enum-store:"+k, fn.Pos(), "no store of "+k)
+			}
 		}
 		// d: value bounded by MaxInt64 before the int64 conversion
 		for _, g := range WithAnon(fn) {
@@ -545,12 +577,25 @@ func c02(c *Ctx) {
 					r.Check(key, k.Value != nil && k.Value.ExactString() == "1", st.Pos(), "constant sample rate "+pathOf(k))
 					continue
 				}
-				if !strings.Contains(pathOf(st.Val), "call(strconv.ParseFloat)#0") {
-					r.Fail(key, st.Pos(), "sample rate stored from "+pathOf(st.Val))
+				stVal := st.Val
+				conds := condsFor(st.Block())
+				if ph, isPhi := st.Val.(*ssa.Phi); isPhi {
+					// a (value, error) pair returned by an inlined helper: only the origins that come with a nil
+					// error reach this store (the error is tested before it)
+					leaves, ok := successLeaves(ph, st.Block())
+					if !ok || len(leaves) != 1 {
+						r.Fail(key, st.Pos(), fmt.Sprintf("sample rate stored from %s (%d success origins)", pathOf(st.Val), len(leaves)))
+						continue
+					}
+					stVal = leaves[0].V
+					conds = append(append([]Cond{}, leaves[0].Conds...), conds...)
+				}
+				if !strings.Contains(pathOf(stVal), "call(strconv.ParseFloat)#0") {
+					r.Fail(key, st.Pos(), "sample rate stored from "+pathOf(stVal))
 					continue
 				}
 				okErr, okPos, okFin := false, false, false
-				for _, cd := range condsFor(st.Block()) {
+				for _, cd := range conds {
 					cd = normCond(cd)
 					if b := asBinOp(cd.V, token.NEQ, token.EQL); b != nil && isNilConst(b.Y) && strings.Contains(pathOf(b.X), "ParseFloat)#1") {
 						if (b.Op == token.NEQ && !cd.Sense) || (b.Op == token.EQL && cd.Sense) {
@@ -560,11 +605,11 @@ func c02(c *Ctx) {
 					if b := asBinOp(cd.V, token.GTR, token.LSS); b != nil && cd.Sense {
 						zeroR, _ := constFloatZero(b.Y)
 						zeroL, _ := constFloatZero(b.X)
-						if (b.Op == token.GTR && b.X == st.Val && zeroR) || (b.Op == token.LSS && b.Y == st.Val && zeroL) {
+						if (b.Op == token.GTR && b.X == stVal && zeroR) || (b.Op == token.LSS && b.Y == stVal && zeroL) {
 							okPos = true // v > 0 is false for NaN as well
 						}
 					}
-					if cl, ok := cd.V.(*ssa.Call); ok && isCall(cl, "math.IsInf") && !cd.Sense && cl.Call.Args[0] == st.Val {
+					if cl, ok := cd.V.(*ssa.Call); ok && isCall(cl, "math.IsInf") && !cd.Sense && cl.Call.Args[0] == stVal {
 						if s, isC := constInt(cl.Call.Args[1]); isC && s >= 0 {
 							okFin = true
 						}
@@ -802,6 +847,9 @@ func c02(c *Ctx) {
 		// every closure handed out by lexEventAttribute returns to the attribute loop (or errors)
 		if fn := F("lexEventAttribute"); fn != nil {
 			for _, g := range WithAnon(fn)[1:] {
+				if res := g.Signature.Results(); res.Len() != 1 || !strings.HasSuffix(res.At(0).Type().String(), "stateFn") {
+					continue // not a state function (e.g. a field setter handed to a helper)
+				}
 				got := returnedStates(g)
 				ok := true
 				for _, s := range got {
@@ -1084,6 +1132,59 @@ func globalByteStrings(w *World, rel string) map[string]string {
 
 // varargElems: for a variadic argument slice built by the compiler (slice of a fresh array),
 // returns the values stored into its elements.
+// successLeaves: ph is the value half of a (value, error) pair of phis in one block (the results of
+// an inlined helper) and the error half is known to be nil at block at; returns the origins of ph
+// that arrive together with a nil error, with the conditions known on the incoming edge.  An error
+// half that is a package-level error variable or a value known non-nil on its edge cannot be nil.
+func successLeaves(ph *ssa.Phi, at *ssa.BasicBlock) ([]valueCase, bool) {
+	var errPhi *ssa.Phi
+	for _, f := range factsAt(at) {
+		if f.Op == token.EQL && isNilConst(f.Y) {
+			if p, ok := f.X.(*ssa.Phi); ok && p.Block() == ph.Block() && p != ph {
+				errPhi = p
+			}
+		}
+	}
+	if errPhi == nil {
+		return nil, false
+	}
+	var out []valueCase
+	for i, e := range ph.Edges {
+		pred := ph.Block().Preds[i]
+		cs := append([]Cond(nil), condsFor(pred)...)
+		if len(pred.Instrs) > 0 {
+			if ifi, ok := pred.Instrs[len(pred.Instrs)-1].(*ssa.If); ok && pred.Succs[0] != pred.Succs[1] {
+				cs = append(cs, Cond{ifi.Cond, pred.Succs[0] == ph.Block(), ifi})
+			}
+		}
+		ev := errPhi.Edges[i]
+		if !isNilConst(ev) {
+			nonNil := false
+			if ld, ok := ev.(*ssa.UnOp); ok && ld.Op == token.MUL {
+				if _, isG := ld.X.(*ssa.Global); isG {
+					nonNil = true // a declared error value (errors.New at package level)
+				}
+			}
+			var facts []canonCond
+			for _, cd := range cs {
+				facts = append(facts, canonOf(cd))
+			}
+			if knownNonNil(facts, func(v ssa.Value) bool { return v == ev }) {
+				nonNil = true
+			}
+			if nonNil {
+				continue
+			}
+			return nil, false
+		}
+		if _, nested := e.(*ssa.Phi); nested {
+			return nil, false
+		}
+		out = append(out, valueCase{e, cs})
+	}
+	return out, true
+}
+
 func varargElems(v ssa.Value) []ssa.Value {
 	sl, ok := v.(*ssa.Slice)
 	if !ok {
